@@ -953,6 +953,10 @@ class Frame(object):
                     base.env[name] = Bytes(old.items + [('EACH', vartext, colltext, inner)])
                 else:
                     base.env[name] = Hasher(old.alg, old.items + [('EACH', vartext, colltext, inner)])
+            elif isinstance(old, Const) and type(old.value) is int and vartext and \
+                    all(render(s.env.get(name, old)) == '(%s + %s)' % (render(old), vartext) for s in normal):
+                # total = k; for x in coll: total += x   is   k + sum(coll)
+                base.env[name] = Sym('sum(%s)' % colltext if old.value == 0 else '(%d + sum(%s))' % (old.value, colltext))
             elif isinstance(old, ListV):
                 new = base.env.get(name)
                 if isinstance(new, ListV) and len(new.elems) > len(old.elems):
@@ -1110,7 +1114,7 @@ class Frame(object):
             if isinstance(r, Const) and r.value is None:
                 if isinstance(l, Const):
                     res = l.value is None
-                elif isinstance(l, (Bytes, ListV, Obj, Hasher)) or (isinstance(l, Sym) and l.nonnull):
+                elif isinstance(l, (Bytes, ListV, Obj, Hasher, ClassV, FuncV)) or (isinstance(l, Sym) and l.nonnull):
                     res = False
                 else:
                     return None
@@ -1744,6 +1748,9 @@ class Frame(object):
                 if r is not None:
                     return r
                 return Sym('%s(%s)' % (n, self._argtext(args, kwargs)))
+            if isinstance(callee, ClassV) and not (self.fi.params and n == self.fi.params[0]):
+                record(callee.ci.name)          # a local bound to a class (e.g. looked up in a dispatch table) is instantiated
+                return self._construct(callee.ci, args, kwargs, st, node)
             if isinstance(callee, LambdaV):
                 record(n)
                 r = self._maybe_inline(callee.fi, None, args, kwargs, st, node, closure=callee.closure_env, force=True)
